@@ -7,31 +7,110 @@ package v2
 
 //@ -- a CID is "the sum of" some bytes when a CID prefix hashed exactly these bytes to it
 //@ fn isSumOf(c ref, data []byte) bool
+//@ -- go-cid: a prefix and its bytes; hashing under a prefix is a function of prefix and data
+//@ fn prefixOf(c ref) ref
+//@ fn prefixBytes(p ref) []byte
+//@ fn prefixFrom(b []byte) ref
+//@ fn prefixErr(b []byte) error
+//@ fn sumCid(p ref, data []byte) ref
+//@ fn sumErr(p ref, data []byte) error
+//@ axiom prefix_inv: forall p ref {prefixBytes(p)} :: prefixFrom(prefixBytes(p)) == p && prefixErr(prefixBytes(p)) == nil
+//@ func github.com/ipfs/go-cid.Cid.Prefix
+//@   assumed
+//@   modifies nothing
+//@   ensures result == prefixOf(c)
+//@ func github.com/ipfs/go-cid.Prefix.Bytes
+//@   assumed
+//@   modifies nothing
+//@   ensures result == prefixBytes(p)
 //@ func github.com/ipfs/go-cid.PrefixFromBytes
 //@   assumed
 //@   modifies nothing
+//@   ensures result1 == prefixErr(buf) && (result1 == nil ==> result0 == prefixFrom(buf))
 //@ func github.com/ipfs/go-cid.Prefix.Sum
 //@   assumed
 //@   modifies nothing
-//@   ensures result1 == nil ==> isSumOf(result0, data)
-//@ func github.com/ipfs/go-graphsync/message.NewMessage
-//@   inline
+//@   ensures result1 == sumErr(p, data) && (result1 == nil ==> result0 == sumCid(p, data) && isSumOf(result0, data))
 
-//@ -- a message that decodes holds only request IDs of 16 bytes, and every block is keyed by the CID computed from its own bytes
+//@ -- how one wire request is read back: cancel and update requests carry no root / selector / priority; anything else is a
+//@ -- new request whose absent optional fields read as the zero value
+//@ pred decReq(w ipldbind.GraphSyncRequest, r message.GraphSyncRequest) :=
+//@   r.id == ridOf(w.Id) &&
+//@   (w.RequestType == graphsync.RequestTypeCancel ==> r.requestType == graphsync.RequestTypeCancel) &&
+//@   (w.RequestType == graphsync.RequestTypeUpdate ==> r.requestType == graphsync.RequestTypeUpdate) &&
+//@   ((w.RequestType != graphsync.RequestTypeCancel && w.RequestType != graphsync.RequestTypeUpdate) ==>
+//@       r.requestType == graphsync.RequestTypeNew &&
+//@       (w.Root == nil ==> r.root == cid.Undef) && (w.Root != nil ==> r.root == deref(w.Root)) &&
+//@       (w.Selector == nil ==> r.selector == nil) && (w.Selector != nil ==> r.selector == deref(w.Selector)) &&
+//@       (w.Priority == nil ==> r.priority == 0) && (w.Priority != nil ==> r.priority == deref(w.Priority)))
+//@ pred decRes(w ipldbind.GraphSyncResponse, r message.GraphSyncResponse) :=
+//@   r.requestID == ridOf(w.Id) && r.status == w.Status &&
+//@   (w.Metadata == nil ==> len(r.metadata) == 0) && (w.Metadata != nil ==> r.metadata == deref(w.Metadata))
+//@ -- choice functions: a position at which an ID / CID occurs in a wire list (sound: every element has one)
+//@ fn reqIdx(W []ipldbind.GraphSyncRequest, k graphsync.RequestID) int
+//@ fn resIdx(W []ipldbind.GraphSyncResponse, k graphsync.RequestID) int
+//@ fn blkIdx(W []ipldbind.GraphSyncBlock, k cid.Cid) int
+//@ lemmadef reqIdx_elem(W []ipldbind.GraphSyncRequest, j int):
+//@   0 <= j && j < len(W) ==> 0 <= reqIdx(W, ridOf(W[j].Id)) && reqIdx(W, ridOf(W[j].Id)) < len(W) && ridOf(W[reqIdx(W, ridOf(W[j].Id))].Id) == ridOf(W[j].Id)
+//@ lemmadef resIdx_elem(W []ipldbind.GraphSyncResponse, j int):
+//@   0 <= j && j < len(W) ==> 0 <= resIdx(W, ridOf(W[j].Id)) && resIdx(W, ridOf(W[j].Id)) < len(W) && ridOf(W[resIdx(W, ridOf(W[j].Id))].Id) == ridOf(W[j].Id)
+//@ lemmadef blkIdx_elem(W []ipldbind.GraphSyncBlock, j int):
+//@   0 <= j && j < len(W) ==> 0 <= blkIdx(W, wireCid(W[j])) && blkIdx(W, wireCid(W[j])) < len(W) && wireCid(W[blkIdx(W, wireCid(W[j]))]) == wireCid(W[j])
+//@ -- every entry of the first n wire requests' decoded map comes from one of them
+//@ pred reqsFrom(W []ipldbind.GraphSyncRequest, n int, m map[graphsync.RequestID]message.GraphSyncRequest) :=
+//@   forall k graphsync.RequestID :: k in m ==> 0 <= reqIdx(W, k) && reqIdx(W, k) < n && ridOf(W[reqIdx(W, k)].Id) == k && decReq(W[reqIdx(W, k)], m[k])
+
+//@ -- C12: a message that decodes holds only request IDs of 16 bytes, and every block is keyed by the CID computed from its own bytes
+//@ -- C11: ... and it holds exactly what the wire lists say (stated for lists without repeated IDs, which is what the encoder emits)
 //@ func MessageHandler.fromIPLD
 //@   lenient
 //@   requires ibm != nil
+//@   use distinctReqs_def(deref(ibm.Gs2.Requests))
+//@   use reqIdsOK_def(deref(ibm.Gs2.Requests))
+//@   use resIdsOK_def(deref(ibm.Gs2.Responses))
+//@   use blksOK_def(deref(ibm.Gs2.Blocks))
+//@   use distinctRess_def(deref(ibm.Gs2.Responses))
+//@   use distinctBlks_def(deref(ibm.Gs2.Blocks))
+//@   use reqIdx_elem(deref(ibm.Gs2.Requests), idx1)
+//@   use resIdx_elem(deref(ibm.Gs2.Responses), idx2)
+//@   use blkIdx_elem(deref(ibm.Gs2.Blocks), idx3)
 //@   modifies alloc, allmaps("map[graphsync.RequestID]message.GraphSyncRequest"), allmaps("map[graphsync.RequestID]message.GraphSyncResponse"), allmaps("map[cid.Cid]blocks.Block")
 //@   ensures result1 == nil ==> (forall id graphsync.RequestID :: id in result0.requests ==> ridBytesLen(id) == 16)
 //@   ensures result1 == nil ==> (forall id graphsync.RequestID :: id in result0.responses ==> ridBytesLen(id) == 16)
 //@   ensures result1 == nil ==> (forall k cid.Cid :: k in result0.blocks ==> blkCid(result0.blocks[k]) == k && isSumOf(k, blkData(result0.blocks[k])))
+//@   ensures result1 == nil && ibm.Gs2.Requests == nil ==> len(result0.requests) == 0
+//@   ensures result1 == nil && ibm.Gs2.Requests != nil && distinctReqs(deref(ibm.Gs2.Requests)) ==> len(result0.requests) == len(deref(ibm.Gs2.Requests))
+//@   ensures result1 == nil && ibm.Gs2.Requests != nil && distinctReqs(deref(ibm.Gs2.Requests)) ==>
+//@           (let W := deref(ibm.Gs2.Requests) :: forall k graphsync.RequestID :: k in result0.requests ==>
+//@              0 <= reqIdx(W, k) && reqIdx(W, k) < len(W) && ridOf(W[reqIdx(W, k)].Id) == k && decReq(W[reqIdx(W, k)], result0.requests[k]))
+//@   ensures result1 == nil && ibm.Gs2.Responses == nil ==> len(result0.responses) == 0
+//@   ensures result1 == nil && ibm.Gs2.Responses != nil && distinctRess(deref(ibm.Gs2.Responses)) ==> len(result0.responses) == len(deref(ibm.Gs2.Responses))
+//@   ensures result1 == nil && ibm.Gs2.Responses != nil && distinctRess(deref(ibm.Gs2.Responses)) ==>
+//@           (let W := deref(ibm.Gs2.Responses) :: forall k graphsync.RequestID :: k in result0.responses ==>
+//@              0 <= resIdx(W, k) && resIdx(W, k) < len(W) && ridOf(W[resIdx(W, k)].Id) == k && decRes(W[resIdx(W, k)], result0.responses[k]))
+//@   ensures result1 == nil && ibm.Gs2.Blocks == nil ==> len(result0.blocks) == 0
+//@   ensures result1 == nil && ibm.Gs2.Blocks != nil && distinctBlks(deref(ibm.Gs2.Blocks)) ==> len(result0.blocks) == len(deref(ibm.Gs2.Blocks))
+//@   ensures result1 == nil && ibm.Gs2.Blocks != nil && distinctBlks(deref(ibm.Gs2.Blocks)) ==>
+//@           (let W := deref(ibm.Gs2.Blocks) :: forall k cid.Cid :: k in result0.blocks ==>
+//@              0 <= blkIdx(W, k) && blkIdx(W, k) < len(W) && wireCid(W[blkIdx(W, k)]) == k && blkData(result0.blocks[k]) == W[blkIdx(W, k)].Data)
+//@   -- decoding fails only for a malformed ID or a block prefix that does not parse / hash
+//@   ensures (ibm.Gs2 != nil && (ibm.Gs2.Requests != nil ==> reqIdsOK(deref(ibm.Gs2.Requests))) && (ibm.Gs2.Responses != nil ==> resIdsOK(deref(ibm.Gs2.Responses))) &&
+//@            (ibm.Gs2.Blocks != nil ==> blksOK(deref(ibm.Gs2.Blocks)))) ==> result1 == nil
 //@   loop 1 invariant forall id graphsync.RequestID :: id in requests ==> ridBytesLen(id) == 16
+//@   loop 1 invariant distinctReqs(deref(ibm.Gs2.Requests)) ==> len(requests) == idx1
+//@   loop 1 invariant distinctReqs(deref(ibm.Gs2.Requests)) ==> (let W := deref(ibm.Gs2.Requests) :: forall k graphsync.RequestID :: k in requests ==>
+//@              0 <= reqIdx(W, k) && reqIdx(W, k) < idx1 && ridOf(W[reqIdx(W, k)].Id) == k && decReq(W[reqIdx(W, k)], requests[k]))
 //@   loop 2 invariant forall id graphsync.RequestID :: id in requests ==> ridBytesLen(id) == 16
 //@   loop 2 invariant forall id graphsync.RequestID :: id in responses ==> ridBytesLen(id) == 16
+//@   loop 2 invariant distinctRess(deref(ibm.Gs2.Responses)) ==> len(responses) == idx2
+//@   loop 2 invariant distinctRess(deref(ibm.Gs2.Responses)) ==> (let W := deref(ibm.Gs2.Responses) :: forall k graphsync.RequestID :: k in responses ==>
+//@              0 <= resIdx(W, k) && resIdx(W, k) < idx2 && ridOf(W[resIdx(W, k)].Id) == k && decRes(W[resIdx(W, k)], responses[k]))
+//@   loop 3 invariant distinctBlks(deref(ibm.Gs2.Blocks)) ==> len(blks) == idx3
+//@   loop 3 invariant distinctBlks(deref(ibm.Gs2.Blocks)) ==> (let W := deref(ibm.Gs2.Blocks) :: forall k cid.Cid :: k in blks ==>
+//@              0 <= blkIdx(W, k) && blkIdx(W, k) < idx3 && wireCid(W[blkIdx(W, k)]) == k && blkData(blks[k]) == W[blkIdx(W, k)].Data)
 //@   loop 3 invariant forall id graphsync.RequestID :: id in requests ==> ridBytesLen(id) == 16
 //@   loop 3 invariant forall id graphsync.RequestID :: id in responses ==> ridBytesLen(id) == 16
 //@   loop 3 invariant forall k cid.Cid :: k in blks ==> blkCid(blks[k]) == k && isSumOf(k, blkData(blks[k]))
-
 //@ -- bindnode yields a pointer to a freshly built value of the registered type
 //@ func github.com/ipld/go-ipld-prime/node/bindnode/registry.BindnodeRegistry.TypeFromBytes
 //@   assumed
@@ -52,3 +131,114 @@ package v2
 //@   modifies alloc, allmaps("map[graphsync.RequestID]message.GraphSyncRequest"), allmaps("map[graphsync.RequestID]message.GraphSyncResponse"), allmaps("map[cid.Cid]blocks.Block")
 //@   ensures result1 == nil ==> (forall id graphsync.RequestID :: id in result0.requests ==> ridBytesLen(id) == 16)
 //@   ensures result1 == nil ==> (forall k cid.Cid :: k in result0.blocks ==> blkCid(result0.blocks[k]) == k && isSumOf(k, blkData(result0.blocks[k])))
+
+//@ -- ============================ C11: field mapping between messages and their wire structures ============================
+//@ -- how one request is laid out on the wire: optional fields are absent exactly when they hold the zero value
+//@ pred encReq(r message.GraphSyncRequest, w ipldbind.GraphSyncRequest) :=
+//@   w.Id == ridBytes(r.id) && w.RequestType == r.requestType &&
+//@   ((r.root == cid.Undef) <==> (w.Root == nil)) && (w.Root != nil ==> deref(w.Root) == r.root) &&
+//@   ((r.selector == nil) <==> (w.Selector == nil)) && (w.Selector != nil ==> deref(w.Selector) == r.selector) &&
+//@   ((r.priority == 0) <==> (w.Priority == nil)) && (w.Priority != nil ==> deref(w.Priority) == r.priority)
+//@ pred cellsLive(w ipldbind.GraphSyncRequest) := (w.Root != nil ==> isalloc(w.Root)) && (w.Selector != nil ==> isalloc(w.Selector)) && (w.Priority != nil ==> isalloc(w.Priority))
+
+//@ pred encRes(r message.GraphSyncResponse, w ipldbind.GraphSyncResponse) :=
+//@   w.Id == ridBytes(r.requestID) && w.Status == r.status &&
+//@   ((len(r.metadata) == 0) <==> (w.Metadata == nil)) && (w.Metadata != nil ==> deref(w.Metadata) == r.metadata)
+//@ -- the CID a wire block will be filed under by the decoder
+//@ fn wireCid(w ipldbind.GraphSyncBlock) ref
+//@ axiom wireCid_def: forall w ipldbind.GraphSyncBlock {wireCid(w)} :: wireCid(w) == sumCid(prefixFrom(w.Prefix), w.Data)
+//@ -- well-formed blocks: the CID of a block is the hash of its own bytes under its own prefix
+//@ pred wfBlocks(g message.GraphSyncMessage) := forall k cid.Cid :: k in g.blocks ==>
+//@     sumErr(prefixOf(k), blkData(g.blocks[k])) == nil && sumCid(prefixOf(k), blkData(g.blocks[k])) == k
+//@ pred encBlk(b blocks.Block, w ipldbind.GraphSyncBlock) := w.Data == blkData(b) && w.Prefix == prefixBytes(prefixOf(blkCid(b)))
+
+//@ -- "every element of the wire list can be decoded" (opaque, defined by lemma like the distinctness predicates)
+//@ fn reqIdsOK(W []ipldbind.GraphSyncRequest) bool
+//@ fn resIdsOK(W []ipldbind.GraphSyncResponse) bool
+//@ fn blksOK(W []ipldbind.GraphSyncBlock) bool
+//@ lemmadef reqIdsOK_def(W []ipldbind.GraphSyncRequest):
+//@   reqIdsOK(W) <==> (forall i int :: 0 <= i && i < len(W) ==> len(W[i].Id) == 16)
+//@ lemmadef resIdsOK_def(W []ipldbind.GraphSyncResponse):
+//@   resIdsOK(W) <==> (forall i int :: 0 <= i && i < len(W) ==> len(W[i].Id) == 16)
+//@ lemmadef blksOK_def(W []ipldbind.GraphSyncBlock):
+//@   blksOK(W) <==> (forall i int :: 0 <= i && i < len(W) ==> prefixErr(W[i].Prefix) == nil && sumErr(prefixFrom(W[i].Prefix), W[i].Data) == nil)
+//@ -- "no ID occurs twice in the list": opaque predicates with their definitions as axioms, so that the fact established by
+//@ -- the encoder and the hypothesis of the decoder's contract are the same atom for the solver
+//@ fn distinctReqs(W []ipldbind.GraphSyncRequest) bool
+//@ fn distinctRess(W []ipldbind.GraphSyncResponse) bool
+//@ fn distinctBlks(W []ipldbind.GraphSyncBlock) bool
+//@ lemmadef distinctReqs_def(W []ipldbind.GraphSyncRequest):
+//@   distinctReqs(W) <==> (forall i int, j int :: 0 <= i && i < j && j < len(W) ==> ridOf(W[i].Id) != ridOf(W[j].Id))
+//@ lemmadef distinctRess_def(W []ipldbind.GraphSyncResponse):
+//@   distinctRess(W) <==> (forall i int, j int :: 0 <= i && i < j && j < len(W) ==> ridOf(W[i].Id) != ridOf(W[j].Id))
+//@ lemmadef distinctBlks_def(W []ipldbind.GraphSyncBlock):
+//@   distinctBlks(W) <==> (forall i int, j int :: 0 <= i && i < j && j < len(W) ==> wireCid(W[i]) != wireCid(W[j]))
+//@ func MessageHandler.toIPLD
+//@   lenient
+//@   use distinctReqs_def(ibmRequests)
+//@   use distinctRess_def(ibmResponses)
+//@   use distinctBlks_def(ibmBlocks)
+//@   hide card      -- the number of entries of a map is only passed through here
+//@   safety off
+//@   requires wfMsg(gsm) && wfBlocks(gsm)
+//@   modifies alloc
+//@   ensures result1 == nil ==> result0 != nil && result0.Gs2 != nil
+//@   ensures result1 == nil ==> ((len(gsm.requests) == 0) <==> (result0.Gs2.Requests == nil))
+//@   ensures result1 == nil && len(gsm.requests) > 0 ==> len(deref(result0.Gs2.Requests)) == len(gsm.requests)
+//@   ensures result1 == nil && len(gsm.requests) > 0 ==> (let W := deref(result0.Gs2.Requests) ::
+//@       forall i int :: 0 <= i && i < len(W) ==> ridOf(W[i].Id) in gsm.requests && encReq(gsm.requests[ridOf(W[i].Id)], W[i]))
+//@   ensures result1 == nil && len(gsm.requests) > 0 ==> distinctReqs(deref(result0.Gs2.Requests))
+//@   ensures result1 == nil ==> ((len(gsm.responses) == 0) <==> (result0.Gs2.Responses == nil))
+//@   ensures result1 == nil && len(gsm.responses) > 0 ==> len(deref(result0.Gs2.Responses)) == len(gsm.responses)
+//@   ensures result1 == nil && len(gsm.responses) > 0 ==> (let W := deref(result0.Gs2.Responses) ::
+//@       forall i int :: 0 <= i && i < len(W) ==> ridOf(W[i].Id) in gsm.responses && encRes(gsm.responses[ridOf(W[i].Id)], W[i]))
+//@   ensures result1 == nil && len(gsm.responses) > 0 ==> distinctRess(deref(result0.Gs2.Responses))
+//@   ensures result1 == nil ==> ((len(gsm.blocks) == 0) <==> (result0.Gs2.Blocks == nil))
+//@   ensures result1 == nil && len(gsm.blocks) > 0 ==> len(deref(result0.Gs2.Blocks)) == len(gsm.blocks)
+//@   ensures result1 == nil && len(gsm.blocks) > 0 ==> (let W := deref(result0.Gs2.Blocks) ::
+//@       forall i int :: 0 <= i && i < len(W) ==> wireCid(W[i]) in gsm.blocks && encBlk(gsm.blocks[wireCid(W[i])], W[i]))
+//@   ensures result1 == nil && len(gsm.blocks) > 0 ==> distinctBlks(deref(result0.Gs2.Blocks))
+//@   ensures result1 == nil
+//@   loop 1 invariant len(ibmRequests) == idx1
+//@   loop 2 invariant len(ibmResponses) == idx2
+//@   loop 2 invariant forall i int :: 0 <= i && i < idx2 ==> (ibmResponses[i].Metadata != nil ==> isalloc(ibmResponses[i].Metadata))
+//@   loop 2 invariant forall i int :: 0 <= i && i < idx2 ==> encRes(responses[i], ibmResponses[i])
+//@   loop 3 invariant len(ibmBlocks) == idx3
+//@   loop 3 invariant forall i int :: 0 <= i && i < idx3 ==> encBlk(blocks[i], ibmBlocks[i])
+//@   loop 1 invariant forall i int :: 0 <= i && i < idx1 ==> cellsLive(ibmRequests[i])
+//@   loop 1 invariant forall i int :: 0 <= i && i < idx1 ==> ibmRequests[i].Id == ridBytes(requests[i].id) && ibmRequests[i].RequestType == requests[i].requestType
+//@   loop 1 invariant forall i int :: 0 <= i && i < idx1 ==> ((requests[i].root == cid.Undef) <==> (ibmRequests[i].Root == nil)) && (ibmRequests[i].Root != nil ==> deref(ibmRequests[i].Root) == requests[i].root)
+//@   loop 1 invariant forall i int :: 0 <= i && i < idx1 ==> ((requests[i].selector == nil) <==> (ibmRequests[i].Selector == nil)) && (ibmRequests[i].Selector != nil ==> deref(ibmRequests[i].Selector) == requests[i].selector)
+//@   loop 1 invariant forall i int :: 0 <= i && i < idx1 ==> ((requests[i].priority == 0) <==> (ibmRequests[i].Priority == nil)) && (ibmRequests[i].Priority != nil ==> deref(ibmRequests[i].Priority) == requests[i].priority)
+
+//@ -- ============================ C11: the round trip, as a lemma over the two contracts ============================
+//@ -- equivalence of messages: same IDs, types and status; a new request keeps root, selector and priority; link metadata
+//@ -- is kept (an empty list may come back as an absent one); a block comes back under the same CID with the same bytes
+//@ pred eqReq(a message.GraphSyncRequest, b message.GraphSyncRequest) :=
+//@   a.id == b.id && a.requestType == b.requestType &&
+//@   (a.requestType == graphsync.RequestTypeNew ==> a.root == b.root && a.selector == b.selector && a.priority == b.priority)
+//@ pred eqRes(a message.GraphSyncResponse, b message.GraphSyncResponse) :=
+//@   a.requestID == b.requestID && a.status == b.status &&
+//@   (len(a.metadata) == 0 ==> len(b.metadata) == 0) && (len(a.metadata) > 0 ==> a.metadata == b.metadata)
+//@ -- what "well-formed" means for the message handed to the encoder
+//@ pred wfWire(g message.GraphSyncMessage) :=
+//@   (forall k graphsync.RequestID :: k in g.requests ==> len(ridBytes(k)) == 16) &&
+//@   (forall k graphsync.RequestID :: k in g.requests ==>
+//@       (g.requests[k].requestType == graphsync.RequestTypeNew || g.requests[k].requestType == graphsync.RequestTypeCancel || g.requests[k].requestType == graphsync.RequestTypeUpdate)) &&
+//@   (forall k graphsync.RequestID :: k in g.responses ==> len(ridBytes(k)) == 16)
+//@ func gsvRoundTrip
+//@   lenient
+//@   use reqIdsOK_def(deref(ibm.Gs2.Requests))
+//@   use resIdsOK_def(deref(ibm.Gs2.Responses))
+//@   use blksOK_def(deref(ibm.Gs2.Blocks))
+//@   requires mh != nil && wfMsg(gsm) && wfBlocks(gsm) && wfWire(gsm)
+//@   -- cuts: what the encoder produced can be decoded, list by list (each proved on its own, then used)
+//@   callsite MessageHandler.fromIPLD: assert $ibm.Gs2 != nil && ($ibm.Gs2.Requests != nil ==> reqIdsOK(deref($ibm.Gs2.Requests)))
+//@   callsite MessageHandler.fromIPLD: assert $ibm.Gs2.Responses != nil ==> resIdsOK(deref($ibm.Gs2.Responses))
+//@   callsite MessageHandler.fromIPLD: assert $ibm.Gs2.Blocks != nil ==> blksOK(deref($ibm.Gs2.Blocks))
+//@   modifies alloc, allmaps("map[graphsync.RequestID]message.GraphSyncRequest"), allmaps("map[graphsync.RequestID]message.GraphSyncResponse"), allmaps("map[cid.Cid]blocks.Block")
+//@   ensures result1 == nil
+//@   ensures result1 == nil ==> len(result0.requests) == old(len(gsm.requests)) && len(result0.responses) == old(len(gsm.responses)) && len(result0.blocks) == old(len(gsm.blocks))
+//@   ensures result1 == nil ==> forall k graphsync.RequestID :: k in result0.requests ==> old(k in gsm.requests) && eqReq(old(gsm.requests[k]), result0.requests[k])
+//@   ensures result1 == nil ==> forall k graphsync.RequestID :: k in result0.responses ==> old(k in gsm.responses) && eqRes(old(gsm.responses[k]), result0.responses[k])
+//@   ensures result1 == nil ==> forall k cid.Cid :: k in result0.blocks ==> old(k in gsm.blocks) && blkCid(result0.blocks[k]) == k && blkData(result0.blocks[k]) == blkData(old(gsm.blocks[k]))
